@@ -308,3 +308,91 @@ class BinDomain:
     def run(self):
         self.block(self.f.node.body)
         return self.returns
+
+
+# ---------------------------------------------------------------------------------------------
+# endpoint-zero domain (C20): (first, last) in {Z, ?}^2 for 1-D waveforms
+# ---------------------------------------------------------------------------------------------
+ZERO_, ANY_ = "Z", "?"
+
+
+class Endpoints:
+    def __init__(self, model, func):
+        self.M = model
+        self.f = func
+        self.env = {}
+        self.returns = []
+
+    def v(self, e):
+        """(first, last) endpoint knowledge of an expression; scalars are ('s','s')"""
+        SC = ("s", "s")
+        if isinstance(e, ast.Constant):
+            return SC
+        if isinstance(e, ast.Name):
+            return self.env.get(e.id, SC)
+        if isinstance(e, ast.UnaryOp):
+            return self.v(e.operand)
+        if isinstance(e, ast.BinOp):
+            a, b = self.v(e.left), self.v(e.right)
+            if isinstance(e.op, (ast.Mult,)):
+                return self._mul(a, b)
+            if isinstance(e.op, ast.Div):
+                # x / y keeps the zeros of x (y finite, non-zero: scalar normalisations in these designers)
+                return a if a != SC else SC
+            if isinstance(e.op, (ast.Add, ast.Sub)):
+                if a == SC and b == SC:
+                    return SC
+                if a == SC or b == SC:
+                    return (ANY_, ANY_)  # adding a scalar offset destroys zero endpoints
+                return (ZERO_ if a[0] == ZERO_ and b[0] == ZERO_ else ANY_, ZERO_ if a[1] == ZERO_ and b[1] == ZERO_ else ANY_)
+            return SC if (a == SC and b == SC) else (ANY_, ANY_)
+        if isinstance(e, ast.Call):
+            tgt = self.M.resolve_call(self.f, e)
+            short = tgt[1].split(".")[-1] if tgt[0] in ("ext", "name") else ""
+            if tgt[0] == "ext" and short == "linspace" and len(e.args) >= 2:
+                z = lambda n: isinstance(n, ast.Constant) and n.value == 0
+                return (ZERO_ if z(e.args[0]) else ANY_, ZERO_ if z(e.args[1]) else ANY_)
+            if tgt[0] == "ext" and short in ("concatenate", "hstack") and e.args and isinstance(e.args[0], (ast.Tuple, ast.List)) and e.args[0].elts:
+                parts = [self.v(x) for x in e.args[0].elts]
+                arr = [p for p in parts]
+                first = arr[0][0] if arr[0] != ("s", "s") else ANY_
+                last = arr[-1][1] if arr[-1] != ("s", "s") else ANY_
+                return (first, last)
+            if tgt[0] == "ext" and short in ("squeeze", "expand_dims", "asarray", "array", "copy", "ravel", "negative", "abs", "absolute", "atleast_1d") and e.args:
+                return self.v(e.args[0])
+            if tgt[0] == "ext" and short in ("ones", "zeros", "arange", "full", "empty"):
+                return (ZERO_, ZERO_) if short == "zeros" else (ANY_, ANY_)
+            if tgt[0] == "ext" and short in ("sum", "max", "min", "sqrt", "ceil", "floor", "size", "sign"):
+                return SC
+            if tgt[0] == "name" and short in ("sum", "max", "min", "abs", "int", "float", "len"):
+                return SC
+            return (ANY_, ANY_) if tgt[0] != "name" else SC
+        if isinstance(e, ast.Subscript):
+            return (ANY_, ANY_)
+        if isinstance(e, ast.Tuple):
+            return SC
+        return SC
+
+    def _mul(self, a, b):
+        SC = ("s", "s")
+        if a == SC and b == SC:
+            return SC
+        if a == SC:
+            return b
+        if b == SC:
+            return a
+        return (ZERO_ if ZERO_ in (a[0], b[0]) else ANY_, ZERO_ if ZERO_ in (a[1], b[1]) else ANY_)
+
+    def run_block(self, stmts):
+        for s in stmts:
+            if isinstance(s, ast.Assign):
+                val = self.v(s.value)
+                for t in s.targets:
+                    if isinstance(t, ast.Name):
+                        self.env[t.id] = val
+                    elif isinstance(t, (ast.Tuple, ast.List)):
+                        for x in t.elts:
+                            if isinstance(x, ast.Name):
+                                self.env[x.id] = ("s", "s")
+            elif isinstance(s, ast.AugAssign) and isinstance(s.target, ast.Name):
+                self.env[s.target.id] = self.v(ast.BinOp(left=s.target, op=s.op, right=s.value))
